@@ -52,7 +52,13 @@ RULE = (
     "(initial_state_probability, transition_matrix, means, variances): sum over ALL K^T paths where K^T<=2200, the exact "
     "Lean forward-backward model for T<=20, an independent log-space forward recursion beyond; read when the constructor "
     "returns and again after state_path and after the object served as initial_guess of one more Baum-Welch iteration, "
-    "which must itself be exact, normalised and not below; long label sequences over <=5 labels (negative labels "
+    "which must itself be exact, normalised and not below; the observation sequence in the array forms callers hold: "
+    "for each of the element types int64, uint32, int32, uint8, float32, uint16, int16, uint64 (integer types: models on a "
+    "count scale with state spacing 0.5-200 counts, traces rounded to integers, means above / around / below zero) 16 / 64 "
+    "x 3 small-scope models with every T<=5 / 7 (vit, fb, em as above, sums over ALL K^T paths), 32 / 160 medium traces "
+    "through the exact forward-backward model and 32 / 200 Baum-Welch runs (T<=40 / 64, a quarter of them long, T<=800 / "
+    "5000), the array being its own buffer, a strided view or read-only and the constructor getting the array or a Slice; "
+    "the numbers in the array are exactly those the model and the oracle work on; long label sequences over <=5 labels (negative labels "
     "included) + malformed stream (empty trace, NaN labels, wrong initial_guess type, state-count mismatch). "
     "Non-trivial: decoded path with >=2 states; forward-backward with K>=2 and T>=2; EM with K>=2 and >=2 "
     "iterations; label sequence with >=2 runs; call sequence with >=2 calls and a trace with >=2 runs; malformed input "
@@ -72,6 +78,10 @@ ASSUMPTIONS = [
     "(observations not impossible under the model); generators keep max_j log B_t(j) > -600",
     "update_normalised excludes rows of A' whose state has zero occupancy before the last time point (0/0 in the code)",
     "the update step is compared for T >= 2 (for T = 1 the code divides 0/0)",
+    "the ascent of the log-likelihood is not compared across a Baum-Welch step that starts or ends in a model with a state's "
+    "precision above 1e12 (variance collapse onto identical observations, frequent in integer traces: the Gaussian is "
+    "singular, the likelihood unbounded and its computed value rounding noise; "
+    "corpus/C16/em_variance_collapse_identical_counts.json); such runs are counted",
     "em_monotone (DESIGN ext) is NOT a theorem: the likelihood ascent of Baum-Welch is explored only (oracle on the "
     "implementation's log-likelihood sequence)",
     "state labels handed to dwell extraction are integers",
@@ -136,6 +146,58 @@ def public_params(h):
 def trace_of(data, dt=1000):
     Slice, Continuous, *_ = _lk()
     return Slice(Continuous(np.array(data, dtype=float), 0, dt))
+
+
+# The property speaks of ANY observation sequence.  What the caller hands over is a NumPy array (or a Slice holding one):
+# the same numbers can arrive as float64, as integers (photon counts are stored as unsigned integers, np.random.poisson
+# gives int64), in single precision, as a strided view into a larger recording or as a read-only buffer.
+OBS_DTYPES = ["int64", "uint32", "int32", "uint8", "float32", "uint16", "int16", "uint64"]
+OBS_LAYOUTS = ["own", "strided", "readonly"]
+
+
+class SetupFailure(Exception):
+    pass
+
+
+def obs_array(case):
+    """the observation sequence of the case as the array the caller would hand over: the numbers case["data"] in the
+    element type case["dtype"] (float64 unless stated) and the memory layout case["layout"] (own contiguous buffer unless
+    stated; "strided": every other element of a larger buffer; "readonly": not writeable).  The array holds EXACTLY the
+    numbers of case["data"] (checked), so model and oracle keep working on case["data"]"""
+    dt = np.dtype(case.get("dtype", "float64"))
+    vals = [float(v) for v in case["data"]]
+    if dt.kind in "iu":
+        if any(v != math.floor(v) for v in vals):
+            raise SetupFailure(f"observations {vals[:8]} are not integers")
+        a = np.array([int(v) for v in vals], dtype=dt)
+    else:
+        a = np.array(vals, dtype=dt)
+    if [float(v) for v in a] != vals:
+        raise SetupFailure(f"observations {vals[:8]} do not exist in {dt}")
+    layout = case.get("layout", "own")
+    if layout == "strided":
+        buf = np.full(2 * len(vals), 77, dtype=dt)
+        buf[::2] = a
+        a = buf[::2]
+    elif layout == "readonly":
+        a.setflags(write=False)
+    elif layout != "own":
+        raise SetupFailure(f"layout {layout}")
+    return a
+
+
+def obs_trace(case, dt=1000):
+    Slice, Continuous, *_ = _lk()
+    return Slice(Continuous(obs_array(case), 0, dt))
+
+
+def retype(data, dtype):
+    """the nearest observation sequence that exists in that element type (integers: rounded, clipped to the range)"""
+    dt = np.dtype(dtype)
+    if dt.kind in "iu":
+        info = np.iinfo(dt)
+        return [float(min(max(round(x), int(info.min)), int(info.max))) for x in data]
+    return [float(v) for v in np.array(data, dtype=float).astype(dt)]
 
 
 def seq_model(kind, K):
@@ -489,11 +551,11 @@ def _impl(case):
     k = case["op"]
     if k == "vit":
         h = stub_hmm(classic(case))
-        path = h.state_path(trace_of(case["data"])).data
+        path = h.state_path(obs_trace(case)).data
         return [json.dumps({"path": [int(s) for s in path]})]
     if k == "fb":
         model = classic(case)
-        data = np.array(case["data"], dtype=float)
+        data = obs_array(case)
         alpha, beta, c, B = det.forward_backward(data, model)
         gamma, xi, ll = det.calculate_temporary_variables(model, alpha, beta, c, B)
         new = model.update(data, gamma, xi)
@@ -503,9 +565,9 @@ def _impl(case):
         })]
     if k == "em":
         model = classic(case)
-        data = np.array(case["data"], dtype=float)
+        data = obs_array(case)
         n = case["iters"]
-        lls, pisum, rowdev, occ = [], [], [], []
+        lls, pisum, rowdev, occ, taumax = [], [], [], [], []
         gamma, xi, ll = det.calculate_temporary_variables(model, *det.forward_backward(data, model))
         lls.append(ll)
         for _ in range(n):
@@ -515,16 +577,19 @@ def _impl(case):
             pisum.append(float(np.sum(model.pi)))
             rowdev.append(float(np.max(np.abs(np.sum(model.A, axis=1) - 1.0))))
             occ.append(float(np.min(np.sum(gamma[:-1], axis=0))))
+            taumax.append(float(np.max(model.tau)))
         # the same through the public constructor
-        hm = pub.HiddenMarkovModel(data, case["K"], tol=case.get("tol", 0.0), max_iter=n, initial_guess=stub_hmm(classic(case)))
+        # (the constructor takes the observations as an array or as a Slice)
+        given = obs_trace(case) if case.get("container") == "slice" else obs_array(case)
+        hm = pub.HiddenMarkovModel(given, case["K"], tol=case.get("tol", 0.0), max_iter=n, initial_guess=stub_hmm(classic(case)))
         ret = public_params(hm)  # the trained model as the constructor hands it over
-        path = hm.state_path(trace_of(case["data"])).data
+        path = hm.state_path(obs_trace(case)).data
         # ... and the trained model OBJECT as the starting point of one more Baum-Welch iteration (warm start)
-        warm = pub.HiddenMarkovModel(data, case["K"], tol=0.0, max_iter=1, initial_guess=hm)
+        warm = pub.HiddenMarkovModel(given, case["K"], tol=0.0, max_iter=1, initial_guess=hm)
         wp = public_params(warm)
         end = public_params(hm)  # the same object once more, after it has been used
         out = json.dumps({
-            "path": [int(s) for s in path], "ll": fl(lls), "pisum": fl(pisum), "rowdev": fl(rowdev), "occ": fl(occ),
+            "path": [int(s) for s in path], "ll": fl(lls), "pisum": fl(pisum), "rowdev": fl(rowdev), "occ": fl(occ), "taumax": fl(taumax),
             "pub_ll": end["ll"], "pub_iter": int(hm.fit_info.n_iter), "pub_conv": bool(hm.fit_info.converged),
             "pub_pi": end["pi"], "pub_A": end["A"], "pub_mu": end["mu"], "pub_tau": end["tau"],
             "ret": ret, "warm": wp, "warm_iter": int(warm.fit_info.n_iter),
@@ -739,6 +804,7 @@ def agree(case, i, ia, ma):
 # ------------------------------------------------------------------ oracle (plain Python from the property text)
 
 BRUTE_LIMIT = 2200
+TAU_COLLAPSED = 1e12  # a state with precision above this (sd < 1e-6) no longer is a Gaussian emission the property speaks about
 
 
 def oracle_vit(K, pi, A, mu, tau, data, path):
@@ -825,10 +891,15 @@ def oracle_em(case, d):
     if len(ll) != n + 1:
         return f"em: {len(ll)} log-likelihoods for {n} iterations"
     occ = unfl(d["occ"])
+    taumax = unfl(d["taumax"])
     for k in range(n):
         if not (math.isfinite(ll[k]) and math.isfinite(ll[k + 1])) or not occ[k] > 1e-6:
             return None  # degenerate run (variance collapse / empty state): not covered, counted as dropped
-        if ll[k + 1] < ll[k] - TOL * max(1.0, abs(ll[k])):
+        # A state that has taken over a stretch of identical observations (common in integer traces) gets a variance that is
+        # rounding noise of its mean (1e-28 for counts of 12): the Gaussian is singular, the likelihood unbounded and its computed
+        # value noise.  The ascent is not compared across a step that starts or ends in such a model (counted)
+        collapsed = not taumax[k] <= TAU_COLLAPSED or (k > 0 and not taumax[k - 1] <= TAU_COLLAPSED)
+        if not collapsed and ll[k + 1] < ll[k] - TOL * max(1.0, abs(ll[k])):
             return f"em-monotone: log-likelihood fell from {ll[k]!r} to {ll[k + 1]!r} in Baum-Welch iteration {k + 1}"
         if abs(unfl(d["pisum"])[k] - 1.0) > TOL:
             return f"update-normalised: initial distribution sums to {unfl(d['pisum'])[k]!r} after iteration {k + 1}"
@@ -849,7 +920,7 @@ def oracle_em(case, d):
     if abs(sum(pi) - 1.0) > TOL or any(abs(sum(r) - 1.0) > TOL for r in A):
         return f"update-normalised: trained model has pi sum {sum(pi)!r}, row sums {[sum(r) for r in A]}"
     mu, tau = unfl(d["pub_mu"]), unfl(d["pub_tau"])
-    if not all(math.isfinite(v) for v in mu + tau) or min(tau) <= 0 or max(tau) > 1e12:
+    if not all(math.isfinite(v) for v in mu + tau) or min(tau) <= 0 or max(tau) > TAU_COLLAPSED:
         return None
     lb_best = max(max(gauss_logpdf(xv, mu[j], tau[j]) for j in range(K)) for xv in case["data"])
     if not math.isfinite(lb_best):
@@ -868,7 +939,7 @@ def oracle_em(case, d):
     # one more Baum-Welch iteration started from the trained model object: again exact, normalised, and not below
     w = d["warm"]
     wpi, wA, wmu, wtau, wll = unfl(w["pi"]), [unfl(r) for r in w["A"]], unfl(w["mu"]), unfl(w["tau"]), dec_float(w["ll"])
-    if d["warm_iter"] == 1 and math.isfinite(wll) and params_usable(wpi, wA, wmu, wtau) and max(wtau) <= 1e12:
+    if d["warm_iter"] == 1 and math.isfinite(wll) and params_usable(wpi, wA, wmu, wtau) and max(wtau) <= TAU_COLLAPSED:
         if abs(sum(wpi) - 1.0) > TOL or any(abs(sum(r) - 1.0) > TOL for r in wA):
             return f"update-normalised: one more iteration from the trained model gives pi sum {sum(wpi)!r}, row sums {[sum(r) for r in wA]}"
         bad = oracle_reported_ll(K, w, case["data"], f"HiddenMarkovModel(data, {K}, tol=0, max_iter=1, initial_guess=<the trained model>)")
@@ -885,7 +956,7 @@ def oracle_reported_ll(K, pr, data, what):
     log-likelihood has to be the logarithm of the sum over all state paths of P(path, data) under the reported parameters"""
     T = len(data)
     pi, A, mu, tau, ll = unfl(pr["pi"]), [unfl(r) for r in pr["A"]], unfl(pr["mu"]), unfl(pr["tau"]), dec_float(pr["ll"])
-    if not params_usable(pi, A, mu, tau) or max(tau) > 1e12:
+    if not params_usable(pi, A, mu, tau) or max(tau) > TAU_COLLAPSED:
         return None
     lb = [[gauss_logpdf(x, mu[j], tau[j]) for j in range(K)] for x in data]
     if not all(max(r) > -600.0 for r in lb):
@@ -1035,7 +1106,7 @@ def nontrivial(case, ia):
 
 
 def tags(case, r):
-    return {"op": case["op"]}
+    return {"op": case["op"], "dtype": case.get("dtype", "float64")}
 
 
 def shrink(case):
@@ -1132,6 +1203,36 @@ def ambiguous_start(rng, m, data):
         data[0] = (1.0 - w) * m["mu"][j] + w * m["mu"][j + 1]
 
 
+def rescaled(m, s, shift):
+    """the same model in other units: observations x -> s*x + shift"""
+    return dict(m, mu=[v * s + shift for v in m["mu"]], tau=[t / (s * s) for t in m["tau"]])
+
+
+def typed_units(rng, m, dtype):
+    """integer observations are counts: put the model on a count scale (spacing of the states 0.5 ... 200 counts; unsigned
+    types: means well above 0, signed ones: also around and below 0), so that the rounded trace still has noise in it.
+    Boundary: scale 1 keeps the sub-integer spreads of rnd_model, where whole stretches of the trace are one number.
+    Returns (s, shift) of the change of units x -> s*x + shift"""
+    dt = np.dtype(dtype)
+    if dt.kind not in "iu":
+        return 1.0, 0.0
+    s = rng.choice([1.0, 2.0, 5.0, 5.0, 20.0, 20.0])
+    if dt.itemsize == 1:
+        s = min(s, 5.0)
+    lo = min(m["mu"]) * s
+    shift = (rng.choice([3.0, 10.0]) * s - lo) if dt.kind == "u" else rng.choice([0.0, 0.0, -lo, -3.0 * s - lo, 10.0 * s - lo])
+    return s, float(round(shift))
+
+
+def typed_model(rng, m, dtype):
+    return rescaled(m, *typed_units(rng, m, dtype))
+
+
+def typed_form(rng, i):
+    """element type (cycled, so that every type occurs), memory layout of the observation array"""
+    return OBS_DTYPES[i % len(OBS_DTYPES)], rng.choice(["own", "own", "strided", "readonly"])
+
+
 def emission_ok(m, data):
     """margin from underflow: some state explains every observation with log-density > -600"""
     return all(max(gauss_logpdf(x, m["mu"][j], m["tau"][j]) for j in range(m["K"])) > -600.0 for x in data)
@@ -1210,6 +1311,18 @@ CORPUS = [
     {"op": "fb", "K": 2, "mu": [0.0, 1.0], "tau": [1.0, 2.0], "pi": [0.25, 0.75], "A": [[0.5, 0.5], [0.25, 0.75]], "data": [0.5]},
     # observation impossible under the model in double precision: every c_t underflows to 0
     {"op": "fb", "K": 2, "mu": [0.0, 1.0], "tau": [1.0, 1.0], "pi": [0.5, 0.5], "A": [[0.5, 0.5], [0.5, 0.5]], "data": [100.0, 0.0], "expect_degenerate": True},
+    # the observation sequence as integers (photon counts), as signed integers around zero, in single precision, as a
+    # strided view: the same numbers as float64 give the same posteriors
+    {"op": "fb", "K": 2, "mu": [12.0, 45.0], "tau": [1.0 / 16.0, 1.0 / 49.0], "pi": [0.5, 0.5], "A": [[0.8, 0.2], [0.3, 0.7]],
+     "data": [9.0, 14.0, 40.0, 52.0, 47.0, 11.0], "dtype": "uint32"},
+    {"op": "fb", "K": 2, "mu": [-2.0, 2.0], "tau": [0.5, 0.25], "pi": [0.25, 0.75], "A": [[0.5, 0.5], [0.1, 0.9]],
+     "data": [-3.0, 0.0, 2.0, 5.0, -1.0], "dtype": "int64", "layout": "strided"},
+    {"op": "fb", "K": 3, "mu": [0.0, 1.0, 2.0], "tau": [4.0, 4.0, 4.0], "pi": [0.2, 0.3, 0.5], "A": [[0.5, 0.5, 0.0], [0.0, 0.5, 0.5], [0.5, 0.0, 0.5]],
+     "data": [0.25, 0.5, 2.125, 1.75, 1.0], "dtype": "float32", "layout": "readonly"},
+    {"op": "em", "K": 2, "mu": [10.0, 30.0], "tau": [0.04, 0.02], "pi": [0.5, 0.5], "A": [[0.7, 0.3], [0.4, 0.6]],
+     "data": [8.0, 13.0, 27.0, 35.0, 31.0, 12.0, 6.0, 29.0], "iters": 2, "tol": 0.0, "dtype": "uint16", "container": "slice"},
+    {"op": "vit", "K": 2, "mu": [3.0, 9.0], "tau": [0.5, 0.5], "pi": [0.5, 0.5], "A": [[0.9, 0.1], [0.1, 0.9]],
+     "data": [2.0, 4.0, 8.0, 10.0, 3.0], "dtype": "uint8"},
     {"op": "dwell", "path": [0, 0, 1, 1, 1, 0, 2], "exclude": True},
     {"op": "dwell", "path": [0, 0, 1, 1, 1, 0, 2], "exclude": False},
     {"op": "dwell", "path": [3, 3, 3], "exclude": True},
@@ -1376,15 +1489,91 @@ def cases(tier, rng):
             K = max(labels) + 1
             yield {"stream": "random", "op": "dwell_api", "K": K, "path": p, "exclude": sub.chance(0.5), "dt": sub.choice([1000, 12800, 10**6]), "subseed": i}
 
+    # ---- the observation sequence as the array types callers hold (see OBS_DTYPES): integer counts, single precision,
+    #      strided views, read-only buffers.  The numbers in the array are exactly case["data"], so everything above applies
+    #      unchanged: exact model, sums over ALL K^T paths, the trained object's reported log-likelihood.
+    #      small scope: per element type random small models (count scale for the integer types), every T
+    n_models = 16 if quick else 64
+    r = rng.fork("c16-typed-small")
+    for mi in range(n_models):
+        sub = r.fork(mi)
+        dtype, layout = typed_form(sub, mi)
+        for K in (1, 2, 3):
+            m = typed_model(sub, rnd_model(sub, K, zeros=((mi // len(OBS_DTYPES)) % 2 == 1), sticky=sub.chance(0.3)), dtype)
+            full = simulate(sub, m, Tmax, noise=sub.choice([0.5, 1.0, 2.0]))
+            if sub.chance(0.3):  # off-model observations
+                w = 2.0 / math.sqrt(max(m["tau"]))
+                full = [x + sub.uniform(-w, w) for x in full]
+            full = retype(full, dtype)
+            if not emission_ok(m, full):
+                continue
+            form = {"dtype": dtype, "layout": layout, "subseed": mi}
+            for T in range(1, Tmax + 1):
+                yield dict(m, stream="small-scope", op="vit", data=full[:T], **form)
+                yield dict(m, stream="small-scope", op="fb", data=full[:T], **form)
+                if T >= 2:
+                    yield dict(m, stream="small-scope", op="em", data=full[:T], iters=1 + (mi + K + T) % 3, tol=0.0,
+                               container=("slice" if (mi + T) % 2 else "array"), **form)
+
+    #      medium traces through the exact forward-backward model
+    N = 32 if quick else 160
+    r = rng.fork("c16-typed-medium")
+    for i in range(N):
+        sub = r.fork(i)
+        dtype, layout = typed_form(sub, i)
+        K = sub.choice([2, 2, 3, 3, 4])
+        m = typed_model(sub, rnd_model(sub, K, zeros=sub.chance(0.4), sticky=sub.chance(0.6)), dtype)
+        T = sub.choice([2, 3, 8, sub.randint(8, Tm), Tm])
+        data = retype(simulate(sub, m, T, noise=sub.choice([0.5, 1.0, 1.5])), dtype)
+        if not emission_ok(m, data):
+            continue
+        yield dict(m, stream="random", op="fb", data=data, dtype=dtype, layout=layout, subseed=i)
+        yield dict(m, stream="random", op="vit", data=data, dtype=dtype, layout=layout, subseed=i)
+
+    #      Baum-Welch on short, medium and long traces, through the manual E/M steps and the public constructor
+    N = 32 if quick else 200
+    r = rng.fork("c16-typed-em")
+    for i in range(N):
+        sub = r.fork(i)
+        dtype, layout = typed_form(sub, i)
+        K = sub.choice([2, 2, 3, 3, 4])
+        long = i % 4 == 3
+        truth = rnd_model(sub, K, zeros=False, sticky=long or sub.chance(0.6))
+        if long:
+            truth["mu"] = [3.0 * j + sub.uniform(-0.5, 0.5) for j in range(K)]
+        guess = rnd_model(sub, K, zeros=sub.chance(0.2) and not long, sticky=sub.chance(0.5))
+        guess["mu"] = sorted(truth["mu"][j] + sub.uniform(-0.5, 0.5) for j in range(K))
+        guess["tau"] = [truth["tau"][j] * sub.loguniform(0.3, 2.0) for j in range(K)]
+        # truth and guess in the same (count) units
+        sc, shift = typed_units(sub, truth, dtype)
+        truth, guess = rescaled(truth, sc, shift), rescaled(guess, sc, shift)
+        T = sub.choice([60, 200, sub.randint(60, 800 if quick else 5000)]) if long else sub.choice([3, 5, 7, 12, sub.randint(8, Tm), Tm])
+        data = retype(simulate(sub, truth, T, noise=sub.choice([0.5, 1.0, 1.5])), dtype)
+        if not long:
+            ambiguous_start(sub, guess, data)
+            data = retype(data, dtype)
+        if not emission_ok(guess, data):
+            continue
+        yield dict(guess, stream="random-long" if long else "random", op="em", data=data, iters=sub.choice([1, 1, 2, 3, 5]),
+                   tol=sub.choice([0.0, 0.0, 1e-3, 0.5]), dtype=dtype, layout=layout, container=sub.choice(["array", "slice"]), subseed=i)
+
 
 def extra_coverage(results):
     kinds, errs, Ks, Ts = {}, {}, {}, {"1": 0, "2-7": 0, "8-64": 0, "65-5000": 0}
     zero_models = ties = degenerate = em_dropped = brute = 0
     trained_checked = trained_mixed = trained_brute = trained_lean = 0
     seq_calls = seq_same_window_other_data = seq_same_trace_again = 0
+    obs_types, obs_layouts, ctor_slice, typed_nontrivial, typed_em_dropped, em_collapsed = {}, {}, 0, 0, 0, 0
     for r in results:
         c = r["case"]
         k = c["op"]
+        if k in ("vit", "fb", "em"):
+            dt = c.get("dtype", "float64")
+            obs_types[f"{k}:{dt}"] = obs_types.get(f"{k}:{dt}", 0) + 1
+            obs_layouts[c.get("layout", "own")] = obs_layouts.get(c.get("layout", "own"), 0) + 1
+            ctor_slice += k == "em" and c.get("container") == "slice"
+            # an integer / single precision trace that is not one repeated number
+            typed_nontrivial += dt != "float64" and len(set(c["data"])) >= 2
         if k == "dwell_seq":
             st = c["steps"]
             seq_calls += len(st)
@@ -1412,25 +1601,32 @@ def extra_coverage(results):
         if k == "em" and not is_err(a):
             pr = json.loads(a)["ret"]
             pi, tau = unfl(pr["pi"]), unfl(pr["tau"])
-            if params_usable(pi, [unfl(x) for x in pr["A"]], unfl(pr["mu"]), tau) and max(tau) <= 1e12 and r["clause"] is None:
+            if params_usable(pi, [unfl(x) for x in pr["A"]], unfl(pr["mu"]), tau) and max(tau) <= TAU_COLLAPSED and r["clause"] is None:
                 trained_checked += 1
                 trained_mixed += max(pi) < 0.999
                 trained_brute += c["K"] ** len(c["data"]) <= BRUTE_LIMIT
                 trained_lean += len(r["model"]) == 2 and r["model"][1] not in ("ok", "degenerate")
+        if k == "em" and not is_err(a) and not all(v <= TAU_COLLAPSED for v in unfl(json.loads(a)["taumax"])):
+            em_collapsed += 1
         if k == "em" and (r["model"][0] == "ok" or (not is_err(a) and not all(math.isfinite(v) for v in unfl(json.loads(a)["ll"])))):
             em_dropped += 1
+            typed_em_dropped += c.get("dtype", "float64") != "float64"
     return {
         "case_kinds": kinds, "error_kinds": errs, "states_K": Ks, "trace_lengths_T": Ts,
         "models_with_zero_probabilities": zero_models, "cases_checked_against_all_paths_brute_force": brute,
         "decoded_path_differs_from_model_path_but_scores_agree": ties, "forward_backward_degenerate": degenerate,
-        "em_runs_dropped_as_degenerate": em_dropped,
+        "em_runs_dropped_as_degenerate": em_dropped, "em_runs_dropped_as_degenerate_not_float64": typed_em_dropped,
+        "em_runs_with_a_collapsed_variance_whose_ascent_is_not_compared_there": em_collapsed,
         "trained_models_with_usable_parameters": trained_checked,
         "trained_models_whose_initial_distribution_is_still_mixed": trained_mixed,
         "trained_models_checked_against_all_paths_brute_force": trained_brute,
         "trained_models_checked_against_the_exact_lean_model": trained_lean,
         "calls_in_sequences_on_one_model_object": seq_calls,
         "sequence_calls_with_the_time_window_of_an_earlier_call_but_other_data": seq_same_window_other_data,
-        "sequence_calls_repeating_an_earlier_trace": seq_same_trace_again, "exhaustive": False,
+        "sequence_calls_repeating_an_earlier_trace": seq_same_trace_again,
+        "observation_array_element_types": dict(sorted(obs_types.items())), "observation_array_layouts": obs_layouts,
+        "non_float64_traces_with_at_least_two_different_values": typed_nontrivial,
+        "constructor_given_a_Slice": ctor_slice, "exhaustive": False,
         "exhaustive_note": "the small-scope stream enumerates all label sequences and, per model, all trace lengths; "
                            "the oracle enumerates all K^T paths there; model parameters themselves are sampled",
     }
